@@ -1051,6 +1051,9 @@ func (r *Raft) sendAppendEntriesToPeers() {
 		r.tryApplyReadOnlyOperations(round, sent)
 	}
 
+	// The term that this round of requests belongs to.
+	term := r.currentTerm
+
 	// This node only counts toward the quorum if it is a voting member itself.
 	numResponses := 0
 	if r.isVoter(r.id) {
@@ -1058,7 +1061,7 @@ func (r *Raft) sendAppendEntriesToPeers() {
 	}
 	for id, address := range r.configuration.Members {
 		if id != r.id {
-			go r.sendAppendEntries(id, address, &numResponses, round, sent)
+			go r.sendAppendEntries(id, address, &numResponses, round, sent, term)
 		}
 	}
 }
@@ -1071,13 +1074,16 @@ func (r *Raft) sendAppendEntries(
 	numResponses *int,
 	round uint64,
 	sent time.Time,
+	term uint64,
 ) {
 	r.mu.Lock()
 	defer r.mu.Unlock()
 
-	// Only leader may send AppendEntries RPCs.
+	// Only leader may send AppendEntries RPCs, and only in the term that the round was
+	// started in: the responses to a request of a later leadership of this node must not be
+	// counted with those of the round of an earlier one.
 	// It's also possible that this node was removed from the cluster.
-	if r.state != Leader || !r.isMember(id) {
+	if r.state != Leader || r.currentTerm != term || !r.isMember(id) {
 		return
 	}
 
@@ -1359,22 +1365,37 @@ func (r *Raft) sendRequestVoteToPeers() {
 	// Send RequestVote RPCs to all voting members of the cluster.
 	votesRecieved := 1
 	isPrevote := r.state == PreCandidate
+	term := r.currentTerm
 	for id, address := range r.configuration.Members {
 		if id != r.id && r.isVoter(id) {
-			go r.sendRequestVote(id, address, &votesRecieved, isPrevote)
+			go r.sendRequestVote(id, address, &votesRecieved, isPrevote, term)
 		}
 	}
 }
 
 // sendRequestVote sends a RequestVote RPC to the node with the provided
 // ID and address if it is a voting member.
-func (r *Raft) sendRequestVote(id string, address string, votes *int, prevote bool) {
+func (r *Raft) sendRequestVote(
+	id string,
+	address string,
+	votes *int,
+	prevote bool,
+	term uint64,
+) {
 	r.mu.Lock()
 	defer r.mu.Unlock()
 
 	// Do not send requests to non-voting members and only send
 	// requests if this node is a voting member of the cluster.
 	if !r.isVoter(id) || !r.isVoter(r.id) {
+		return
+	}
+
+	// The election that this request belongs to is over if the term has changed since it
+	// was started, or if this node is not campaigning anymore: a request sent now would ask
+	// for a vote in another election and its answer would be counted with the votes of this one.
+	if r.currentTerm != term || (prevote && r.state != PreCandidate) ||
+		(!prevote && r.state != Candidate) {
 		return
 	}
 
